@@ -151,6 +151,20 @@ fn frames() -> Vec<Frame> {
             if !p.is_empty() { m.push(p); }
             specs.push(("service-error", m));
         }
+        // the same names in other JSON spellings (escapes inside the prefix, inside the name, everywhere)
+        let full = format!("org.varlink.service.{n}");
+        let spellings = [
+            full.replacen("varlink.", "varlink\\u002e", 1),
+            full.replacen("org", "\\u006frg", 1),
+            full.replacen("service", "serv\\u0069ce", 1),
+            full.chars().map(|c| format!("\\u{:04x}", c as u32)).collect::<String>(),
+            full.replace('/', "/"),
+        ];
+        for sp in spellings.iter().take(4) {
+            let mut m = vec![format!("\"error\":\"{sp}\"")];
+            if !right.is_empty() { m.push(right.clone()); }
+            specs.push(("service-error", m));
+        }
     }
     // `error` member that is not a string
     for e in ["5", "true", "{\"x\":1}", "[\"a.NotFound\"]", "null", "1.5"] {
@@ -174,6 +188,15 @@ fn frames() -> Vec<Frame> {
         })
         .collect();
     specs.extend(with_continues);
+    // every frame once more with its member names spelled with JSON escapes (the same documents)
+    let esc_first = |m: &String| -> String {
+        // "name":value -> "\uXXXXame":value
+        let inner = &m[1..];
+        let c = inner.chars().next().unwrap();
+        format!("\"\\u{:04x}{}", c as u32, &inner[c.len_utf8()..])
+    };
+    let escaped: Vec<(&'static str, Vec<String>)> = specs.iter().filter(|(_, m)| !m.is_empty()).map(|(f, m)| (*f, m.iter().map(esc_first).collect())).collect();
+    specs.extend(escaped);
     let mut out = Vec::new();
     for (family, members) in specs {
         let refs: Vec<&str> = members.iter().map(|x| x.as_str()).collect();
